@@ -185,6 +185,23 @@ def open_histories(tier):
     return [[hello] + [st] * k + [hello, st, hello]]
 
 
+def cancel_histories():
+    """host pattern `seqcancel`: a run that is CANCELLED from outside (the CancelFunc NewRuntimeEnvironment returns to its
+    host) while its processes still have internal steps to make, followed by ordinary programs: whatever the cancelled run
+    still does must not show up in a later one.  The cancelled program is marked by a leading comment; the probe slows it
+    down (15 ms per transition), cancels it after 120 ms and keeps its capture open for a grace period; its own labels
+    are not compared (they depend on the timer)."""
+    ticks = "; ".join(["print tick"] * 200)
+    long1 = ("cancel:prints", "// CANCEL-AFTER\nprc[a] : 1 = %s; close self\n" % ticks)
+    spin = ("cancel:callloop", "// CANCEL-AFTER\nlet spin() : 1 = print spin; spin()\nprc[a] : 1 = spin()\n")
+    long2 = ("cancel:two", "// CANCEL-AFTER\nprc[a] : 1 = %s; close self\nprc[b] : 1 = %s; close self\n" % (ticks.replace("tick", "ta"), ticks.replace("tick", "tb")))
+    cuts = ("cancel:cuts", "// CANCEL-AFTER\nlet unit() : 1 = close self\nprc[a] : 1 = %s close self\n" % " ".join("x%d <- new unit(); wait x%d; print cut;" % (i, i) for i in range(120)))
+    hello = ("ok:hello", "prc[p] : 1 = print hello; close self")
+    two = ("ok:two", "prc[a] : 1 = wait b; print ok; close self\nprc[b] : 1 = print first; close self")
+    call = ("ok:call", "let z() : 1 = print zero; close self\nprc[a] : 1 = n <- new z(); wait n; print got; close self")
+    return [[c, hello, two, call, hello] for c in (long1, spin, long2, cuts)] + [[hello, long1, two, spin, call]]
+
+
 def run(b, ps, tier, seed):
     violations = []
     if b.probe_error or b.model_error:
@@ -224,7 +241,8 @@ def run(b, ps, tier, seed):
               ("ok:call", "let z() : 1 = print zero; close self\nprc[a] : 1 = n <- new z(); wait n; print got; close self")]
     plans += [(h, "seqnc") for h in nc_histories(rng, simple)]
     plans += [(h, "seqopen") for h in open_histories(tier)]
-    alone_sub = {"seq": "seq", "seqre": "seq", "seqnc": "seqnc", "seqopen": "seqopen"}
+    plans += [(h, "seqcancel") for h in cancel_histories()]
+    alone_sub = {"seq": "seq", "seqre": "seq", "seqnc": "seqnc", "seqopen": "seqopen", "seqcancel": "seqcancel"}
     # alone: every distinct program in its own fresh process (a history of length one), under the same host pattern
     distinct = {}
     need_alone = set()
@@ -249,7 +267,7 @@ def run(b, ps, tier, seed):
         model_res[t] = (tag, sorted(m["prints"]))
 
     def agrees_with_model(sub, t, w):
-        if sub in ("seqnc", "seqopen"):       # the model is not consulted for unchecked / open runs: history vs alone only
+        if sub in ("seqnc", "seqopen", "seqcancel"):       # the model is not consulted for unchecked / open runs: history vs alone only
             return True
         return w[:2] == model_res[t] or model_res[t][0] in ("OUTOFFUEL",)
 
@@ -292,7 +310,7 @@ def run(b, ps, tier, seed):
         "distinct_nontrivial": len(distinct),
         "rule": "histories of %d..%d programs drawn from the closed programs of the run suite (accepted and rejected) plus unparseable / non-contractive / empty ones, with repeats; each history runs inside one OS process (`probe seq`), each program also alone; non-trivial = distinct program texts" % hlen,
         "samples": [[i for i, _ in h] for h in hists[:3]],
-        "histories": len(plans), "host_patterns": ["seqnc: typechecking skipped (--notypecheck), bare-expression programs after late parse failures", "seqopen: accepted open programs that strand goroutines, repeated, then ordinary programs", "seq: a fresh RuntimeEnvironment per program (as the repository's tests and benchmark driver do)", "seqre: ONE RuntimeEnvironment re-used through InitializeProcesses"], "verdicts_in_histories": dict(verdicts),
+        "histories": len(plans), "host_patterns": ["seqcancel: a run cancelled from outside while its processes still have internal steps, then ordinary programs", "seqnc: typechecking skipped (--notypecheck), bare-expression programs after late parse failures", "seqopen: accepted open programs that strand goroutines, repeated, then ordinary programs", "seq: a fresh RuntimeEnvironment per program (as the repository's tests and benchmark driver do)", "seqre: ONE RuntimeEnvironment re-used through InitializeProcesses"], "verdicts_in_histories": dict(verdicts),
         "deviations_confirmed": deviations, "cut_short_by_timer_then_ok_on_rerun": artefacts,
     }
     cov.update(globals_stats())
